@@ -9,6 +9,7 @@ import asyncstdlib as A
 
 from ..loop import CTX, Driver, Suspend, rr_strategy
 from ..sched import explore
+from ..probes import PLANNED, PLANNED_NAMES, Planned
 
 ID = "C11"
 LEVEL = "exploration"
@@ -55,11 +56,12 @@ def cases(tier, seed, shard, nshards):
                "fail": sorted(rng.sample(range(1, 7), rng.choice([0, 0, 1, 2]))),
                "cancel_task": rng.randrange(nt) if rng.random() < 0.4 else None,
                "runs": DFS_LIMIT[tier] if mode == "dfs" else RANDOM_RUNS[tier], "seed": rng.randrange(1 << 30),
+               "exc": rng.choice(PLANNED_NAMES),
                "epilogue": [rng.randrange(nkeys + 1) for _ in range(rng.randint(3, 7))]}
 
 
-class Planned(Exception):
-    pass
+def _planned(case):
+    return PLANNED[case.get("exc", "Exception")]
 
 
 def execute(case, choose, cancel_at=None):
@@ -82,7 +84,7 @@ def execute(case, choose, cancel_at=None):
             await Suspend(("f", key), case["susp"])
             if rid in fail:
                 produced[rid] = (key, "failed")
-                raise Planned(rid)
+                raise _planned(case)(rid)
         finally:
             state["active"][key] -= 1
         value = ("v", key, rid)
